@@ -211,8 +211,11 @@ PROPS = {
                      "non-trivial = the customize hook was called in the sync, or (event stream) the related object is selected by some parent's rules" + RULE_EVENTS,
                      ["hook", "outcome", "events"], extra_streams=[events("composite", 600, 6000, ["related-selected", "related-add", "related-update", "related-delete"]),
                                                                    rounds("malformed", 800, 8000, ["hook-customize"])]),
-    "C16": sync_prop(C16T, ["update-parent", "updateStatus-parent"],
-                     "non-trivial = the decorated object was written (decorator traces); composite traces are not judged", ["parent", "status", "hook"]),
+    # + closed world: an accepted write with the resourceVersion of an object the sync was given lands on exactly that object
+    # (the decorator writes its target optimistically): what somebody else changed meanwhile is never overwritten
+    "C16": sync_prop(C16T + [("Mc.Props.C02Sem", "Mc.C02.C02_update_lands_on_observed"), ("Mc.Props.C02Sem", "Mc.C02.C02_status_update_lands_on_observed")],
+                     ["update-parent", "updateStatus-parent"],
+                     "non-trivial = the decorated object was written (decorator traces); composite traces are not judged", ["parent", "status", "hook", "apimodel"]),
     "C12": sync_prop(C12T + INVT, ["failed-create", "failed-update", "failed-delete", "failed-updateStatus", "outcome-error"],
                      "non-trivial = some request failed or the sync reported an error" + RULE_ROUNDS, ["outcome", "children", "status", "claim", "revisions", "finalizer", "parent"],
                      extra_streams=[rounds("faults", 96, 960, ["rounds-faults", "failed-create", "failed-update", "failed-delete", "failed-updateStatus", "outcome-error"]),
